@@ -114,6 +114,7 @@ Ltac unit_by_norm :=
 Definition unit_or_degenerate (o : outcome R) : Prop :=
   match o with
   | Val [p; q; r; t] => qnorm2 [p; q; r; t] = 1 \/ (p = 0 /\ q = 0 /\ r = 0 /\ t = 0)
+  | Val [] => True            (* `return None` (no attitude): judged, like Raise, by the guard theorems *)
   | Val _ => False
   | Raise _ => True
   end.
@@ -128,11 +129,51 @@ Proof.
   - left. apply unit_of_div_sqrt. nra.
 Qed.
 
-(* every leaf of the decision tree *)
-Ltac leaf_unit_or_degenerate U :=
-  first [ exact I
-        | apply div_norm_unit_or_zero
-        | left; cbv [qnorm2 e List.nth]; first [exact U | rewrite <- U; ring]
-        | match goal with |- qnorm2 [?a / sqrt ?e; ?b / sqrt ?e; ?c / sqrt ?e; ?d / sqrt ?e] = 1 \/ _ =>
-            replace e with (a*a + b*b + c*c + d*d) by ring; apply div_norm_unit_or_zero end ].
-Ltac all_leaves U := cbv zeta; unfold unit_or_degenerate; repeat destr_dec; leaf_unit_or_degenerate U.
+(* ------------------------------------------------------------------------------------------------------------
+   walking the decision tree of a regenerated definition WITHOUT zeta-expanding it (the let-bound DAG of a filter step
+   is exponentially larger as a tree): each `let x := v in b` becomes a fresh variable with an equation; each
+   data-dependent `if` is destructed; `leaf` is run on every leaf. *)
+Lemma let_intro (P : outcome R -> Prop) (v : R) (b : R -> outcome R) : (forall y, y = v -> P (b y)) -> P (let x := v in b x).
+Proof. intros H. exact (H v eq_refl). Qed.
+
+Ltac walk leaf :=
+  lazymatch goal with
+  | |- ?P (let x := ?v in @?b x) =>
+      let y := fresh "t_" in let Hy := fresh "E" y in
+      refine (let_intro P v b _); intros y Hy; cbv beta; walk leaf
+  | |- ?P (if ?c then _ else _) => destruct c; walk leaf
+  | |- _ => leaf
+  end.
+Ltac rw_local t := try (is_var t; match goal with H : t = _ |- _ => rewrite H end).
+Lemma div0 s : 0 / s = 0. Proof. unfold Rdiv. apply Rmult_0_l. Qed.
+(* e / s = 0 when the sum of squares S containing e*e vanishes *)
+Ltac zero_comp Z := first [ reflexivity | apply div0 | match goal with |- ?n / _ = 0 => assert (Hn : n = 0) by nra; rewrite Hn; apply div0 end ].
+Ltac leaf0 U := idtac;
+  lazymatch goal with
+  | |- unit_or_degenerate (Raise _) => exact I
+  | |- unit_or_degenerate (Val []) => exact I
+  | |- unit_or_degenerate (Val [?a; ?b; ?c; ?d]) =>
+      unfold unit_or_degenerate; rw_local a; rw_local b; rw_local c; rw_local d;
+      lazymatch goal with
+      | |- context [_ / ?s] =>
+          rw_local s;
+          lazymatch goal with
+          | |- context [_ / sqrt ?Rd] =>
+              repeat match goal with H : _ |- _ => lazymatch type of H with R => fail | _ => clear H end end;
+              let Z := fresh "Z" in
+              destruct (Req_dec Rd 0) as [Z|Z];
+              [ right; repeat split; zero_comp Z
+              | left; cbv [qnorm2 e List.nth];
+                let P := fresh "P" in assert (P : 0 < Rd) by nra;
+                let Hss := fresh "Hss" in pose proof (sqrt_sqrt Rd (Rlt_le _ _ P)) as Hss;
+                let Hnz := fresh "Hnz" in pose proof (sqrt_pos_ne0 Rd P) as Hnz;
+                let sv := fresh "s" in set (sv := sqrt Rd) in *;
+                field_simplify_eq; [nra|exact Hnz] ]
+          end
+      | |- qnorm2 [?p; ?q; ?r; ?t] = 1 \/ _ =>
+          is_var p; is_var q; is_var r; is_var t; left; cbv [qnorm2 e List.nth]; exact U
+      | |- ?g => idtac "LEAF NOT HANDLED:" g; fail
+      end
+  end.
+
+Ltac partial_by_walk f U := cbv delta [f]; cbv beta; walk ltac:(leaf0 U).
